@@ -148,6 +148,13 @@ func (fr *frame) localEnvAtInstr(site ssa.Instruction, heap *Heap) map[string]Va
 		}
 		env[name] = val
 	}
+	for old, cur := range fr.aliasLocals {
+		if v, ok := env[cur]; ok {
+			if _, have := env[old]; !have {
+				env[old] = v
+			}
+		}
+	}
 	return env
 }
 
@@ -414,6 +421,16 @@ func (fr *frame) applySpec(spec *FuncSpec, name string, pnames []string, args []
 	for i, n := range pnames {
 		if i < len(args) {
 			vars[n] = args[i]
+		}
+	}
+	if cf := f.e.funcsByName[name]; cf != nil && !spec.IsCallSpec {
+		f.e.bindMu.Lock()
+		_, pal := f.e.aliases(cf)
+		f.e.bindMu.Unlock()
+		for n, i := range pal {
+			if i < len(args) {
+				vars[n] = args[i]
+			}
 		}
 	}
 	sn := shortCallee(name)
